@@ -150,6 +150,15 @@ def project(blk, handle=None, deep=True):
                 got = df.read_rows([0, nr - 1])
                 if [[canon(x[n]) for n in names] for x in got] != [out["rows"][0], out["rows"][nr - 1]]:
                     paths.append("read_rows[first,last]")
+            if nr >= 3:
+                # index lists of every length: contiguous, evenly spaced and irregular ones
+                sels = [list(range(nr)), list(range(0, nr, 2)), [0] + list(range(2, nr))]
+                if nr >= 7:
+                    sels += [[0, 2, 3, 6], [1, 3, 4, nr - 1], [0, 1, 3, 4, 6]]
+                for sel in sels:
+                    got = df.read_rows(sel)
+                    if [[canon(x[n]) for n in names] for x in got] != [out["rows"][r] for r in sel]:
+                        paths.append("read_rows%s" % sel)
             for c, n in enumerate(names):
                 want = [out["rows"][r][c] for r in range(nr)]
                 if [canon(x) for x in df.read_columns(index=[c])] != want:
@@ -230,6 +239,9 @@ class Session:
                 k = act["kind"]
                 if k == "dup_colname":
                     self.blk.create_data_frame("frame", "t", col_names=["a", "a"], col_dtypes=[int, float])
+                elif k == "bad_cell":
+                    self.blk.create_data_frame("frame", "t", col_dict=OrderedDict([("a", np.int64), ("b", str)]),
+                                               data=[(1, "x"), ("not a number", "y")])
                 elif k == "no_names":
                     self.blk.create_data_frame("frame", "t", data=[(1, 2.0)])
                 else:
@@ -366,6 +378,14 @@ def replay_one(tx):
             res["calls"] += 1
             sess.state = st if a["out"] == "ok" else sess.state
             if (exc is None) != (a["out"] == "ok"):
+                # the call of the history that did not do what the specification says is reported here as well: the
+                # transition it belongs to may have been skipped by the stride
+                k = tx["hist"].index(a)
+                res["findings"].append({
+                    "key": "%s/%s/%s:%s" % (klass(a), a["out"], "outcome", "accepted" if exc is None else "raised_" + type(exc).__name__),
+                    "stage": "outcome", "out": a["out"],
+                    "detail": {"expected": a["out"], "observed": "ok" if exc is None else repr(exc)[:200], "in_history_at": k + 1},
+                    "replay": {"hist": tx["hist"][:k], "act": a, "from": None, "to": None, "seed": opts["seed"], "conc": conc.describe()}})
                 res["truncated"] = 1
                 return res
         exp_from = expected(tx["from"], conc)
@@ -459,7 +479,10 @@ def owner_of(f):
 def make_runs(tier, seed):
     quick = tier != "thorough"
     return [runner.ExportRun("MC_NixFrame", "MC_C16_quick.cfg" if quick else "MC_C16.cfg", seed, "harness.c16",
-                             stride=12 if quick else 6, label=lambda tx: klass(tx["act"]) + ":" + tx["act"]["out"])]
+                             stride=12 if quick else 6, label=lambda tx: klass(tx["act"]) + ":" + tx["act"]["out"]),
+            # a tall frame (8 rows): row lists of 4-5 indexes - contiguous, evenly spaced, irregular - written and read
+            runner.ExportRun("MC_NixFrame", "MC_C16_rows.cfg", seed + 1, "harness.c16", stride=1,
+                             label=lambda tx: klass(tx["act"]) + ":" + tx["act"]["out"])]
 
 
 def run(tier, seed, verdict):
@@ -467,7 +490,7 @@ def run(tier, seed, verdict):
         "C16", verdict, make_runs(tier, seed), owns=lambda f: owner_of(f) == "C16",
         rule="every history of create (col_dict / names+dtypes / names+data / structured array; 0 or more rows) / "
              "append rows / append column (explicit or inferred type) / overwrite rows (single, pairs incl. first and "
-             "last) / columns and cells addressed by index and by name (column 0 and the last row included) / set units / "
+             "last; on an 8-row frame also lists of 4-5 contiguous, evenly spaced and irregular indexes) / columns and cells addressed by index and by name (column 0 and the last row included) / set units / "
              "refused writes, over schemas of 1-6 columns of text, int64, float64, bool, int8; values by write stamp from "
              "pools with int64 extremes, NaN, +-inf, -0.0, empty and non-ASCII text; after each call the table is read "
              "through every read path and two long-lived handles + a fresh one, then after reopening",
